@@ -20,7 +20,7 @@ func init() {
 	core.Register(&core.Check{
 		ID:    "C33",
 		Level: "exploration",
-		Rule: "split: marked documents with 1..16 (thorough 30) pages x span 1..pages+1 through SplitRaw and through Split into a directory; x every page-number list of length <=2 (and {2, n/2, n} triples) through SplitByPageNr; merge: every sequence of 1-3 documents out of 4 (page counts 1,2,3,5; one with inherited attributes) through MergeRaw with divider pages off/on, every ordered pair through MergeCreateZip, and file-based create/append; oracle: concatenated markers of the parts equal the original sequence (merge: concatenation / interleaving, blank dividers only where requested), inputs byte-identical afterwards; " +
+		Rule: "split: marked documents with 1..16 (thorough 30) pages x span 1..pages+1 through SplitRaw and through Split into a directory; x every page-number list of length <=2 (and {2, n/2, n} triples) through SplitByPageNr; merge: every sequence of 1-3 documents out of 6 (page counts 1,2,3,5; one with inherited attributes, one with shared indirect page attributes, one hand-built AcroForm) through MergeRaw with divider pages off/on, every ordered pair through MergeCreateZip, and file-based create/append; oracle: concatenated markers of the parts equal the original sequence (merge: concatenation / interleaving, blank dividers only where requested), inputs byte-identical afterwards; " +
 			"non-trivial = a case with a final short part, more than one input, or unequal lengths (zip)",
 		Run: runC33,
 	})
@@ -237,12 +237,24 @@ func runC33(r *core.R) {
 		mk []int
 	}
 	srcs := []src{{docgen.Marked(1, 100), seq(101, 1)}, {docgen.Marked(2, 200), seq(201, 2)}, {[]byte(inherit), seq(1, 3)}, {docgen.Marked(5, 500), seq(501, 5)}}
+	// two inputs in other producers' style: pages sharing one indirect /MediaBox array and one /Resources
+	// dictionary (3 pages), and a hand-built AcroForm (1 page)
+	for _, f := range docgen.Family(true) {
+		if f.Name == "numbering=dense,extra=shared-indirect-attrs/classic" {
+			srcs = append(srcs, src{f.Bytes, seq(1, 3)})
+		}
+	}
+	srcs = append(srcs, src{docgen.ForeignForm("classic"), seq(1, 1)})
+	nsrc := len(srcs)
 	var combos [][]int
-	for a := 0; a < 4; a++ {
+	for a := 0; a < nsrc; a++ {
 		combos = append(combos, []int{a})
-		for b := 0; b < 4; b++ {
+		for b := 0; b < nsrc; b++ {
 			combos = append(combos, []int{a, b})
-			for c := 0; c < 4; c++ {
+			for c := 0; c < nsrc; c++ {
+				if r.Quick() && (a >= 4 || b >= 4) && c >= 4 {
+					continue
+				}
 				combos = append(combos, []int{a, b, c})
 			}
 		}
@@ -293,8 +305,8 @@ func runC33(r *core.R) {
 	})
 	r.Sample(map[string]any{"op": "MergeRaw", "inputs": []int{2, 0, 3}, "divider": true})
 	// zip: every ordered pair
-	for a := 0; a < 4; a++ {
-		for b := 0; b < 4; b++ {
+	for a := 0; a < nsrc; a++ {
+		for b := 0; b < nsrc; b++ {
 			r.Eval(1)
 			if len(srcs[a].mk) != len(srcs[b].mk) {
 				r.Nontrivial(1)
@@ -334,8 +346,8 @@ func runC33(r *core.R) {
 	}
 	r.Sample(map[string]any{"op": "MergeCreateZip", "pages": []int{2, 5}})
 	// file based create / append
-	for a := 0; a < 4; a++ {
-		for b := 0; b < 4; b++ {
+	for a := 0; a < nsrc; a++ {
+		for b := 0; b < nsrc; b++ {
 			dir := filepath.Join(base, fmt.Sprintf("m%d%d", a, b))
 			os.MkdirAll(dir, 0o755)
 			pa, pb, po := filepath.Join(dir, "a.pdf"), filepath.Join(dir, "b.pdf"), filepath.Join(dir, "out.pdf")
